@@ -45,7 +45,7 @@ PostOK(clx, evx, gix, procx, msgsx, c, g, p) ==
         s  == GSx(evx, gix, g, gs.chain) IN
     /\ V("st") => Chk("st", c, p.st = gs.rec.st, gs.rec.st)
     /\ V("mls") => Chk("mls", c, p.mls = gs.mls, gs.mls)
-    /\ (gs.mls # "none" /\ p.mls # "none") =>
+    /\ (gs.mls = "ok" /\ p.mls = "ok") =>
          /\ V("chain") => Chk("chain", c, p.chain = gs.chain /\ p.epoch = gix[g].base + Len(gs.chain), gs.chain)
          /\ V("members") => Chk("members", c, Range(p.members) = s.members, s.members)
          /\ V("pend") => Chk("pend", c, p.pend = (gs.pend # NoE), gs.pend)
@@ -85,7 +85,8 @@ CommitArg == IF R.kind \in {"add", "remove", "admins", "relays"} THEN Range(R.ar
 TCommit ==
     /\ R.op = "Commit"
     /\ IF R.res = "Ok"
-       THEN /\ DoCommit(R.c, R.g, R.kind, CommitArg, NM(R.e))
+       THEN /\ DoCommit(R.c, R.g, R.kind, CommitArg, NM(R.e),
+                         IF R.kind = "add" THEN [u \in CommitArg |-> R.welcomes[CHOOSE i \in DOMAIN R.arg : R.arg[i] = u]] ELSE <<>>)
             /\ V("chain") => ev'[R.e].parent = R.parent
        ELSE /\ ~(CanCommit(R.c, R.g) /\ CommitAllowed(R.c, R.g, R.kind, CommitArg))
             /\ UNCHANGED vars
@@ -107,14 +108,14 @@ TSend ==
     /\ R.op = "Send"
     /\ IF R.res = "Ok"
        THEN SendMessage(R.c, R.g, NM(R.e), [id |-> R.m, claimed |-> R.claimed, content |-> R.content, ca |-> R.mts, idr |-> R.idr])
-       ELSE /\ ~(Created(R.g) /\ cl[R.c][R.g].mls = "ok" /\ R.c \in GS(R.g, cl[R.c][R.g].chain).members)
+       ELSE /\ ~CanSend(R.c, R.g)
             /\ UNCHANGED vars
     /\ Post1
 
 TLeave ==
     /\ R.op = "Leave"
     /\ IF R.res = "Ok" THEN Leave(R.c, R.g, NM(R.e))
-       ELSE /\ ~(Created(R.g) /\ cl[R.c][R.g].mls = "ok" /\ R.c \in GS(R.g, cl[R.c][R.g].chain).members)
+       ELSE /\ ~CanLeave(R.c, R.g)
             /\ UNCHANGED vars
     /\ Post1
 
@@ -124,6 +125,15 @@ TDeliver ==
     /\ ResOK
     /\ V("out") => (DOMAIN ev' \ DOMAIN ev) = (IF R.out = "" THEN {} ELSE {R.out})
     /\ V("notif") => Len(hist'.notifs) = Len(R.rollbacks)
+    /\ Post1
+
+TWelcome ==
+    /\ R.op = "Welcome"
+    /\ CASE R.what = "process" -> ProcessWelcome(R.c, R.w) /\ (V("res") => Chk("res", R.c, hist'.lastRes = R.res, hist'.lastRes))
+         [] R.what = "accept"  -> IF R.res = "Ok" THEN AcceptWelcome(R.c, R.w)
+                                  ELSE ~ENABLED AcceptWelcome(R.c, R.w) /\ UNCHANGED vars
+         [] R.what = "decline" -> IF R.res = "Ok" THEN DeclineWelcome(R.c, R.w)
+                                  ELSE ~ENABLED DeclineWelcome(R.c, R.w) /\ UNCHANGED vars
     /\ Post1
 
 TQuiesce ==
@@ -136,7 +146,7 @@ TraceInit == Init /\ l = 2
 TraceNext ==
     /\ l <= Len(Rec)
     /\ l' = l + 1
-    /\ \/ TMeta \/ TCreate \/ TCommit \/ TMerge \/ TClear \/ TSend \/ TLeave \/ TDeliver \/ TQuiesce
+    /\ \/ TMeta \/ TCreate \/ TCommit \/ TMerge \/ TClear \/ TSend \/ TLeave \/ TDeliver \/ TQuiesce \/ TWelcome
 
 \* property invariants, evaluated by TLC in every state of every real trace
 InvC01 == hist.q => C01_Excused
